@@ -6,9 +6,15 @@ import (
 	"verif/sim"
 )
 
+// extra holds scenarios that exist only in the instrumented build (tag verifinstr).
+var extra []*sim.Scenario
+
 // Registry maps property ids to their scenarios.
 func Registry() map[string]*sim.Scenario {
 	m := map[string]*sim.Scenario{}
+	for _, s := range extra {
+		m[s.ID] = s
+	}
 	for _, s := range []*sim.Scenario{C01, C02, C03, C04, C06, C07, C08, C09, C10, C12, C14, C16} {
 		m[s.ID] = s
 	}
